@@ -366,10 +366,115 @@ func (ds *describer) fieldOf(base ssa.Value, idx int, depth int) string {
 	if ok {
 		name = st.Field(idx).Name()
 	}
+	// a field of a value of a NEW struct type (one that does not exist in the reference tree: a
+	// closure turned into a small struct with a method) that is set exactly once, in the
+	// literal that constructs it, is the value it was constructed with
+	if ok && depth < 10 {
+		if v := helperFieldValue(base, t, idx); v != nil {
+			return ds.d(v, depth+1)
+		}
+	}
 	b := ds.d(base, depth+1)
 	// (&x).f and (*p).f both render as x.f / p.f
 	b = strings.TrimPrefix(b, "&")
 	return b + "." + name
+}
+
+// helperFieldValue: see fieldOf. base is the struct (or pointer to it) whose field idx is read.
+func helperFieldValue(base ssa.Value, t types.Type, idx int) ssa.Value {
+	nt, ok := t.(*types.Named)
+	if !ok || nt.Obj().Pkg() == nil || baselineFuncs["type:"+nt.Obj().Pkg().Path()+"."+nt.Obj().Name()] {
+		return nil
+	}
+	st := nt.Underlying().(*types.Struct)
+	fieldName := st.Field(idx).Name()
+	// (a) the struct literal itself is at hand (possibly through a captured variable)
+	if a, ok := deref(base).(*ssa.Alloc); ok {
+		if lit, ok := structLit(a); ok {
+			if v := lit[fieldName]; v != nil {
+				return v
+			}
+		}
+	}
+	// (b) base is the receiver of a method: the one place in the package that constructs a T
+	p, ok := strip(base).(*ssa.Parameter)
+	if !ok {
+		if ld, isLd := strip(base).(*ssa.UnOp); isLd && ld.Op == token.MUL {
+			p, ok = ld.X.(*ssa.Parameter)
+		}
+	}
+	if !ok || p.Parent() == nil || p.Parent().Signature.Recv() == nil || len(p.Parent().Params) == 0 || p.Parent().Params[0] != p || p.Parent().Pkg == nil {
+		return nil
+	}
+	var found ssa.Value
+	n := 0
+	for _, mem := range p.Parent().Pkg.Members {
+		fn, ok := mem.(*ssa.Function)
+		if !ok {
+			continue
+		}
+		for _, f := range WithClosures(fn) {
+			for _, in := range instrsOf(f) {
+				a, ok := in.(*ssa.Alloc)
+				if !ok {
+					continue
+				}
+				pt, ok := a.Type().Underlying().(*types.Pointer)
+				if !ok || !types.Identical(pt.Elem(), nt) {
+					continue
+				}
+				if lit, ok := structLit(a); ok {
+					if v := lit[fieldName]; v != nil {
+						found = v
+						n++
+					}
+				}
+			}
+		}
+	}
+	// methods of other types in the package may construct it too
+	for _, tm := range p.Parent().Pkg.Members {
+		tp, ok := tm.(*ssa.Type)
+		if !ok {
+			continue
+		}
+		for _, recvT := range []types.Type{tp.Type(), types.NewPointer(tp.Type())} {
+			ms := p.Parent().Prog.MethodSets.MethodSet(recvT)
+			for i := 0; i < ms.Len(); i++ {
+				mf := p.Parent().Prog.MethodValue(ms.At(i))
+				if mf == nil || mf.Pkg != p.Parent().Pkg || mf.Synthetic != "" {
+					continue
+				}
+				if _, isPtr := recvT.(*types.Pointer); !isPtr {
+					if _, declaredOnPtr := mf.Signature.Recv().Type().(*types.Pointer); declaredOnPtr {
+						continue
+					}
+				}
+				for _, f := range WithClosures(mf) {
+					for _, in := range instrsOf(f) {
+						a, ok := in.(*ssa.Alloc)
+						if !ok {
+							continue
+						}
+						pt, ok := a.Type().Underlying().(*types.Pointer)
+						if !ok || !types.Identical(pt.Elem(), nt) {
+							continue
+						}
+						if lit, ok := structLit(a); ok {
+							if v := lit[fieldName]; v != nil && v != found {
+								found = v
+								n++
+							}
+						}
+					}
+				}
+			}
+		}
+	}
+	if n == 1 {
+		return found
+	}
+	return nil
 }
 
 func allocName(a *ssa.Alloc) string {
